@@ -3,9 +3,10 @@
 
    Class of plans: any plan coalgebra state that yields a fixed message list [L] whatever it is sent
    ([follows]), where [L] is accepted by the reference semantics of Engine/PointSpec.v ([spec_docs L = Some SD]):
-   open_run / close_run / checkpoint and, between them, null / sleep / wait / set / trigger / create / read /
-   save / drop in any order that an uninterrupted execution accepts; any number of points, any number of
-   bundles and streams per point, any number of runs one after the other.
+   open_run / close_run / checkpoint / stage / unstage and, between them, null / sleep / wait / set / trigger /
+   create / read / save / drop in any order that an uninterrupted execution accepts; any number of points, any
+   number of bundles and streams per point, any number of runs one after the other (the built-in count and scan
+   plans, as the RunEngine sees them, are of this form: Proofs/RE_PointsEx2.v).
    Devices: never fail ([dev_typed]) and answer a `read` message with the value determined by that message
    ([reads_ok rdm], on the trace): checkpoint-local determinism as the engine sees it.
    Schedules: every [sched_ok] schedule -- the task is stepped when enabled, status objects complete
